@@ -97,6 +97,11 @@ def preprocess (s : List Char) : List Char × Subs :=
   let ps := go {} false s
   (ps.keep, ps.subs)
 
+/-- the scan ends outside quoted literals and embedded queries (every literal and every `${` was closed) -/
+def closedScript (s : List Char) : Bool :=
+  let st := (go {} false s).st
+  decide (st = .idle ∨ st = .comment)
+
 /-! ### metadata / data dispatch -/
 
 def startsWithPct (s : List Char) : Bool := s.head? == some '%'
